@@ -320,13 +320,19 @@ class MockPg:
 
 
 class Backend:
-    def __init__(self, ip, prog, idx, role, sym_status=False, **server_over):
+    def __init__(self, ip, prog, idx, role, sym_status=False, shard=0, pos=None, **server_over):
         self.idx = idx
+        self.shard = shard
+        self.role = role
         self.stream = StreamV([], 'backend%d' % idx)
         self.pg = MockPg(ip, idx, sym_status)
         self.env_ref = []
         self.pg.attach(self.stream, self.env_ref)
-        self.addr = mk_addr(ip, prog, idx, role)
+        self.addr = mk_addr(ip, prog, idx, role, shard=shard)
+        if pos is not None:
+            # position of the server inside its shard (ConnectionPool::databases[shard][address_index])
+            setf(prog, self.addr, 'Address', 'address_index', BV(64, pos))
+            setf(prog, self.addr, 'Address', 'replica_number', BV(64, pos))
         server_over.setdefault('last_activity', Agg([BV(64, FROZEN)], 'SystemTime'))
         self.server = mk_server(ip, prog, self.stream, address=Agg(list(self.addr.fields), 'Address', self.addr.names), **server_over)
         self.cell = Cell(self.server, 'server%d' % idx)
@@ -339,14 +345,23 @@ class HandleEnv:
     def __init__(self, ip, prog, backends, client_bytes, pool_over=None, client_over=None, settings_over=None, paused=False,
                  pending_at=(), on_pending=None):
         self.ip, self.prog = ip, prog
+        if backends and isinstance(backends[0], (list, tuple)):
+            shards = [list(x) for x in backends]
+            backends = [b for sh in shards for b in sh]
+        else:
+            shards = [list(backends)]
+        self.shards = shards
         self.backends = backends
         self.client_bytes = list(client_bytes)
         self.client_stream = StreamV(self.client_bytes, 'client')
         self.client_stream.pending_at = set(pending_at)
         self.on_pending = on_pending
-        pools = [Opaque('Bb8Pool', 'pool%d' % b.idx, b) for b in backends]
-        self.pool, self.settings = mk_pool(ip, prog, [[b.addr for b in backends]], [MapV('hashmap')], databases=[Seq(pools, 'vec')],
-                                           settings_over=settings_over or {})
+        so = dict(settings_over or {})
+        if len(shards) > 1:
+            so.setdefault('shards', BV(64, len(shards)))
+        self.pool, self.settings = mk_pool(ip, prog, [[b.addr for b in sh] for sh in shards], [MapV('hashmap') for _ in shards],
+                                           databases=[Seq([Opaque('Bb8Pool', 'pool%d' % b.idx, b) for b in sh], 'vec') for sh in shards],
+                                           settings_over=so)
         for k, v in (pool_over or {}).items():
             setf(prog, self.pool, 'ConnectionPool', k, v)
         self.paused_cell = deref(ip, getf(prog, self.pool, 'ConnectionPool', 'paused'))
@@ -502,6 +517,8 @@ class HandleEnv:
     def run(self, max_polls=6):
         """Poll the handle() future to completion.  Returns ('done', Result) | ('pending', None) | ('panic', msg)."""
         ip, prog = self.ip, self.prog
+        # main() calls QueryRouter::setup() once at start-up (compiles the command regexes into their OnceCells)
+        ip.call_function(prog.lookup('QueryRouter::setup')[0], [])
         handle = fn(prog, 'Client::handle')
         cp = Ptr(Cell(self.client, 'client'))
         fut = ip.call_function(handle, [cp])
